@@ -28,7 +28,7 @@ Init == /\ l = 2
         /\ Rec[1].ev = "reset"
         /\ st = InitState(CfgOf(Rec[1]))
         /\ hm = NoMap
-        /\ TLCSet(1, 2) /\ TLCSet(2, InitState(CfgOf(Rec[1]))) /\ TLCSet(3, {})
+        /\ TLCSet(1, 2) /\ TLCSet(2, <<InitState(CfgOf(Rec[1])), NoMap>>) /\ TLCSet(3, {})
 
 R == Rec[l]
 Is(ev) == l <= Len(Rec) /\ R.ev = ev /\ l' = l + 1
@@ -108,7 +108,9 @@ TRead ==
      /\ r.res = "data" => /\ st'.obs.n = r.n
                           /\ r.okrun
                           /\ r.off = st'.obs.off % 32
-                          /\ r.w = Tag(NameOf(Peer(r.e), st'.obs.w))
+                          (* bytes of the scripted raw peer carry the tag it chose *)
+                          /\ r.w = IF NameOf(Peer(r.e), st'.obs.w) = 0 THEN Tag(st'.obs.w)
+                                    ELSE Tag(NameOf(Peer(r.e), st'.obs.w))
      /\ UNCHANGED hm
 
 TShutdown ==
@@ -247,13 +249,45 @@ DoneResolved ==
      /\ \A h \in DOMAIN st.hnd[e] : st.hnd[e][h].st # "dropped" => st.hnd[e][h].closedW /\ ~SenderAlive(st, e, h)
 
 (* progress register: the furthest line matched so far (workers 1) *)
-Track == /\ IF TLCGet(1) < l THEN TLCSet(1, l) /\ TLCSet(2, st) ELSE TRUE
+Track == /\ IF TLCGet(1) < l THEN TLCSet(1, l) /\ TLCSet(2, <<st, hm>>) ELSE TRUE
          /\ IF st.kf \subseteq TLCGet(3) THEN TRUE ELSE TLCSet(3, TLCGet(3) \cup st.kf)
+
+(* what the specification would have produced for the unmatched event (diagnosis and attribution) *)
+HH(m, e, name) == IF name \in DOMAIN m[e] THEN m[e][name] ELSE 0
+ExpStates(s, m, r) ==
+  CASE r.ev = "open"      -> OpenStart(s, r.e, r.c, r.host, r.port, LastOr(r.draws, 0))
+    [] r.ev = "open_poll" -> OpenPoll(s, r.e, r.c, LastOr(r.draws, 0))
+    [] r.ev = "accept"    -> Accept(s, r.e)
+    [] r.ev = "write"     -> Write(s, r.e, HH(m, r.e, r.h), r.len)
+    [] r.ev = "read"      -> Read(s, r.e, HH(m, r.e, r.h), r.max)
+    [] r.ev = "shutdown"  -> Shutdown(s, r.e, HH(m, r.e, r.h))
+    [] r.ev = "drop"      -> DropStream(s, r.e, HH(m, r.e, r.h))
+    [] r.ev = "drop_mux"  -> DropMux(s, r.e)
+    [] r.ev = "dg_send"   -> SendDgram(s, r.e, r.id, r.host, r.port, r.data, r.long)
+    [] r.ev = "dg_get"    -> GetDgram(s, r.e)
+    [] r.ev = "bind"      -> BindStart(s, r.e, r.c, r.bt, r.host, r.port, LastOr(r.draws, 0))
+    [] r.ev = "bind_poll" -> BindPoll(s, r.e, r.c)
+    [] r.ev = "next_bind" -> NextBind(s, r.e)
+    [] r.ev = "bind_reply" -> BindReply(s, r.e, r.r, r.accept)
+    [] r.ev = "bind_drop" -> BindDrop(s, r.e, r.r)
+    [] r.ev = "task"      -> TaskPoll(s, r.e, r.gr, r.gs)
+    [] OTHER -> {}
+ObsView(t, m) ==
+  [res |-> t.obs.res, n |-> t.obs.n, off |-> t.obs.off, h |-> t.obs.h, id |-> t.obs.id,
+   host |-> t.obs.host, port |-> t.obs.port, data |-> t.obs.data, rcv |-> t.obs.rcv.op,
+   sent |-> [k \in 1 .. Len(t.obs.sent) |->
+               [op |-> t.obs.sent[k].op, id |-> t.obs.sent[k].id, n |-> t.obs.sent[k].n,
+                len |-> t.obs.sent[k].len, off |-> t.obs.sent[k].off]],
+   wake |-> {w.k \o ":" \o w.e \o ":" \o ToString(w.x) : w \in t.obs.wake},
+   viol |-> t.viol]
+Expected(s, m, r) == SetToSeq({ObsView(t, m) : t \in ExpStates(s, m, r)})
 
 Accepted ==
   \/ TLCGet(1) = Len(Rec) + 1 /\ PrintT(<<"KF", TLCGet(3)>>)
   \/ /\ PrintT(<<"REJECTED at line", TLCGet(1), "of", Len(Rec)>>)
      /\ (TLCGet(1) <= Len(Rec) => PrintT(<<"UNMATCHED", ToJson(Rec[TLCGet(1)])>>))
-     /\ PrintT(<<"LASTSTATE", ToJson(TLCGet(2))>>)
+     /\ (TLCGet(1) <= Len(Rec) => PrintT(<<"EXPECTED", ToJson(Expected(TLCGet(2)[1], TLCGet(2)[2], Rec[TLCGet(1)]))>>))
+     /\ PrintT(<<"LASTSTATE", ToJson(TLCGet(2)[1])>>)
+     /\ PrintT(<<"KF", TLCGet(3)>>)
      /\ FALSE
 =============================================================================
